@@ -38,6 +38,8 @@ def _kinds(rng):
         ("translate_origin", []),
         # a general affine matrix (scaling followed by a translation) applied about the chosen centre
         ("affine", [rng.choice([0.5, 2.0, 1.5]) for _ in range(3)] + [rng.randint(-40, 40) / 4 for _ in range(3)]),
+        # the same kind of matrix multiplied by a constant (last row [0, 0, 0, w]): homogeneous coordinates, the same map
+        ("affine_h", [rng.choice([0.5, 2.0, 1.5]) for _ in range(3)] + [rng.randint(-40, 40) / 4 for _ in range(3)] + [rng.choice([2.0, 0.25, 4.0])]),
     ]
 
 
@@ -50,8 +52,8 @@ def _expected(kind, a, center, root, P):
     if kind == "translate_origin":
         return P - np.asarray(root, dtype=np.float64)
     Q = P - c0
-    if kind == "affine":
-        R = Q * np.asarray(a[:3]) + np.asarray(a[3:])
+    if kind in ("affine", "affine_h"):
+        R = Q * np.asarray(a[:3]) + np.asarray(a[3:6])
     elif kind == "scale":
         R = Q * np.asarray(a)
     else:
@@ -76,6 +78,11 @@ def _transform(kind, a, center):
         from swcgeom.utils import scale3d, translate3d
 
         return AffineTransform(translate3d(*a[3:]) @ scale3d(*a[:3]), **kw)
+    if kind == "affine_h":
+        from swcgeom.transforms import AffineTransform
+        from swcgeom.utils import scale3d, translate3d
+
+        return AffineTransform(a[6] * (translate3d(*a[3:6]) @ scale3d(*a[:3])), **kw)
     if kind == "translate_origin":
         return TranslateOrigin()
     if kind == "scale":
@@ -111,16 +118,7 @@ class Affine(Suite):
         t = gen.make_tree(case["tree"])
         before = {k: v.copy() for k, v in t.ndata.items()}
         tr = _transform(case["kind"], case["a"], case["center"])
-        if case.get("warm"):
-            # the same transform object used on another neuron first (transform objects are reusable:
-            # `Transforms(...)`, population maps); it must not remember anything about that neuron
-            w = dict(case["tree"]); w["xyz"] = [[p[0] + 17.0, p[1] - 9.0, p[2] + 4.0] for p in w["xyz"]]
-            tr(gen.make_tree(w))
-        y = tr(t)
-        res = {"xyz": y.xyz().astype(np.float64).tolist(), "pid": y.pid().tolist(), "type": y.type().tolist(),
-               "r": y.r().astype(np.float64).tolist(), "id": y.id().tolist(),
-               "input_changed": any(not np.array_equal(before[k], t.ndata[k]) for k in before)}
-        # inverse
+        # the inverse transform is built BEFORE the forward one is applied: transform objects are values, several are alive at once
         kind, a = case["kind"], case["a"]
         inv = None
         if kind == "translate":
@@ -131,6 +129,16 @@ class Affine(Suite):
             inv = _transform(kind, [-a[0]], case["center"])
         elif kind == "rot":
             inv = _transform(kind, a[:3] + [-a[3]], case["center"])
+            _transform(kind, [a[1], a[2], a[0], a[3] * 0.5 + 0.3], case["center"])      # … and an unrelated rotation after it
+        if case.get("warm"):
+            # the same transform object used on another neuron first (transform objects are reusable:
+            # `Transforms(...)`, population maps); it must not remember anything about that neuron
+            w = dict(case["tree"]); w["xyz"] = [[p[0] + 17.0, p[1] - 9.0, p[2] + 4.0] for p in w["xyz"]]
+            tr(gen.make_tree(w))
+        y = tr(t)
+        res = {"xyz": y.xyz().astype(np.float64).tolist(), "pid": y.pid().tolist(), "type": y.type().tolist(),
+               "r": y.r().astype(np.float64).tolist(), "id": y.id().tolist(),
+               "input_changed": any(not np.array_equal(before[k], t.ndata[k]) for k in before)}
         if inv is not None:
             res["back"] = inv(y).xyz().astype(np.float64).tolist()
         return res
@@ -142,7 +150,7 @@ class Affine(Suite):
         return "root" if c in ("root", "soma") else "origin"
 
     def lines(self, case, res):
-        if "exc" in res or case["kind"] in ("translate_origin", "affine"):
+        if "exc" in res or case["kind"] in ("translate_origin", "affine", "affine_h"):
             return []
         t = case["tree"]
         root = t["xyz"][0]
@@ -191,7 +199,7 @@ class Matrices(Suite):
         out = []
         for _ in range(12 if tier == "quick" else 60):
             for kind, a in _kinds(rng):
-                if kind not in ("translate_origin", "affine"):
+                if kind not in ("translate_origin", "affine", "affine_h"):
                     out.append({"class": kind, "kind": kind, "a": a})
         return out
 
